@@ -63,6 +63,9 @@ fn mix_tpl(which: usize) -> V9Tpl {
     match which {
         0 => V9Tpl { id: 256, fields: vec![fs(1, 4), fs(7, 2)] },
         1 => V9Tpl { id: 257, fields: vec![fs(8, 4), fs(4, 1), fs(5, 1)] },
+        // same field count and record size as template 0, different fields (a redefinition that only a full
+        // comparison of the field list can tell from a refresh)
+        3 => V9Tpl { id: 256, fields: vec![fs(7, 2), fs(2, 4)] },
         _ => V9Tpl { id: 256, fields: vec![fs(2, 8), fs(96, 4)] },
     }
 }
@@ -86,7 +89,8 @@ fn mix_set(k: usize, pos: usize) -> (V9Set, usize) {
         4 => (V9Set::Data(256, mix_body(10 + pos, pos % 4)), 2),
         5 => (V9Set::Data(257, mix_body(20 + pos, (pos + 1) % 4)), 2),
         6 => (V9Set::Data(258, mix_body(30 + pos, 0)[..8].to_vec()), 1),
-        _ => (V9Set::Tpl(vec![mix_tpl(2)], 0), 1),
+        7 => (V9Set::Tpl(vec![mix_tpl(2)], 0), 1),
+        _ => (V9Set::Tpl(vec![mix_tpl(3)], 0), 1),
     }
 }
 
@@ -173,10 +177,10 @@ pub fn streams(tier: &str) -> Vec<StreamGen> {
     // 4. flowset mixes: all sequences of <= 3 (thorough 4) sets over an 8-set menu x prior context x count convention
     {
         let maxlen = if thorough { 4 } else { 3 };
-        let nl = list_count(8, maxlen);
+        let nl = list_count(9, maxlen);
         let mk = move |i: u64| -> Vec<Vec<u8>> {
             let d = digits(i, &[nl, 2, 2]);
-            let seq = list_at(8, maxlen, d[0]);
+            let seq = list_at(9, maxlen, d[0]);
             let mut sets = vec![];
             let mut nrecords = 0;
             for (pos, k) in seq.iter().enumerate() {
@@ -190,7 +194,7 @@ pub fn streams(tier: &str) -> Vec<StreamGen> {
             }
             let mut calls = vec![];
             if d[1] == 1 {
-                calls.push(v9_packet(&V9Pkt::new(vec![V9Set::Tpl(vec![mix_tpl(2), mix_tpl(1)], 0), V9Set::OptTpl(vec![mix_opt()], 2)])));
+                calls.push(v9_packet(&V9Pkt::new(vec![V9Set::Tpl(vec![mix_tpl(0), mix_tpl(1)], 0), V9Set::OptTpl(vec![mix_opt()], 2)])));
             }
             calls.push(v9_packet(&pkt));
             calls
